@@ -42,6 +42,10 @@ struct Context {
     /// a valid block on the context tip and a valid child of it (for the side-branch form)
     good: BlockView,
     good_child: BlockView,
+    /// a competing branch delivered after `chain[..detour_after]`: the node reaches the context tip
+    /// through a reorganisation away and back (re-attaching blocks it has already verified)
+    detour: Vec<BlockView>,
+    detour_after: usize,
 }
 
 fn with_header<F: FnOnce(packed::RawHeaderBuilder) -> packed::RawHeaderBuilder>(b: &BlockView, f: F) -> BlockView {
@@ -202,7 +206,21 @@ fn build_contexts(ctx: &Ctx, cons: &Consensus) -> Result<Vec<Context>, String> {
         }
         add("uncles/proposals-hash", with_uncles(vec![bad_uncle]), false);
         let good_child = forge.build_on(&good.hash(), &BlockSpec { miner: 2, ..Default::default() })?;
-        out.push(Context { name: "tip5", chain: p[..5].to_vec(), cands, good, good_child });
+        // the same tip reached through a detour: p1..p3, a four-block branch from genesis overtakes,
+        // p4 and p5 overtake again
+        {
+            let mut q = vec![];
+            let mut qp = genesis.clone();
+            for _ in 0..4 {
+                let b = forge.build_on(&qp, &BlockSpec { miner: 21, ts_offset: 21, ..Default::default() })?;
+                qp = b.hash();
+                q.push(b);
+            }
+            let keep = ["empty", "commit/farthest-edge", "commit/closest-edge", "uncles/one", "header/timestamp=median", "commit/proposed-in-gap", "extension/wrong-root", "reward/+1"];
+            let sub: Vec<Cand> = cands.iter().filter(|c| keep.contains(&c.name.as_str())).map(|c| Cand { name: c.name.clone(), block: c.block.clone(), valid: c.valid }).collect();
+            out.push(Context { name: "tip5-after-detour", chain: p[..5].to_vec(), cands: sub, good: good.clone(), good_child: good_child.clone(), detour: q, detour_after: 3 });
+        }
+        out.push(Context { name: "tip5", chain: p[..5].to_vec(), cands, good, good_child, detour: vec![], detour_after: 0 });
     }
     // ------------------------------------------------------------------ context 2: tip p7, candidate = epoch head
     {
@@ -224,7 +242,7 @@ fn build_contexts(ctx: &Ctx, cons: &Consensus) -> Result<Vec<Context>, String> {
         let u7 = forge.build_on(&p[5].hash(), &BlockSpec { miner: 17, ts_offset: 17, ..Default::default() })?;
         add("epoch-head/uncle-of-previous-epoch", good.as_advanced_builder().set_uncles(vec![u7.as_uncle()]).build(), false);
         let good_child = forge.build_on(&good.hash(), &BlockSpec { miner: 2, ..Default::default() })?;
-        out.push(Context { name: "tip7-epoch-head", chain: p[..7].to_vec(), cands, good, good_child });
+        out.push(Context { name: "tip7-epoch-head", chain: p[..7].to_vec(), cands, good, good_child, detour: vec![], detour_after: 0 });
     }
     // ------------------------------------------------------------------ context 3: p6 already includes u5
     {
@@ -239,7 +257,7 @@ fn build_contexts(ctx: &Ctx, cons: &Consensus) -> Result<Vec<Context>, String> {
         let u6x = forge.build_on(&u5.hash(), &BlockSpec { miner: 18, ts_offset: 18, ..Default::default() })?;
         cands.push(Cand { name: "uncles/child-of-included-uncle".into(), block: good.as_advanced_builder().set_uncles(vec![unc(&u6x)]).build(), valid: true });
         let good_child = forge.build_on(&good.hash(), &BlockSpec { miner: 2, ..Default::default() })?;
-        out.push(Context { name: "tip6-with-uncle", chain, cands, good, good_child });
+        out.push(Context { name: "tip6-with-uncle", chain, cands, good, good_child, detour: vec![], detour_after: 0 });
     }
     Ok(out)
 }
@@ -274,8 +292,22 @@ fn run_context(ctx: &Ctx, cons: &Consensus, c: &Context, which: Option<&str>, re
         let _ = std::fs::remove_dir_all(&dir);
         let node = Node::boot(&dir, &NodeOpts::new(cons.clone()))?;
         node.wait_startup()?;
-        for b in &c.chain {
-            node.process(b).map_err(|e| format!("context block {}: {e}", b.number()))?;
+        for (i, b) in c.chain.iter().enumerate() {
+            if !c.detour.is_empty() && i == c.detour_after {
+                for d in &c.detour {
+                    node.process(d).map_err(|e| format!("detour block {}: {e}", d.number()))?;
+                }
+                if node.tip().hash() != c.detour.last().unwrap().hash() {
+                    return Err("the detour did not become the main chain".into());
+                }
+            }
+            if let Err(e) = node.process(b) {
+                // a valid context block refused after the detour is the property's business
+                return Err(format!("VIOLATION-CONTEXT context block {} refused: {e}", b.number()));
+            }
+        }
+        if node.tip().hash() != c.chain.last().unwrap().hash() {
+            return Err("VIOLATION-CONTEXT the context chain did not become the main chain".into());
         }
         Ok(node)
     };
@@ -380,9 +412,9 @@ pub fn meta(_tier: Tier) -> Meta {
     Meta {
         id: "C03",
         level: "model_checking",
-        rule: "contexts (flat world, 4-block epochs, window 2..4, two uncles max): tip 5 with proposals at every distance 1..5 from the candidate height and sibling / fork blocks at heights 3..6; tip 7 where the candidate opens an epoch; tip 6 that already includes an uncle. Catalogue per context: valid candidates on the boundary of each rule (timestamp median+1 and now+15s, commit at the closest and farthest window edge, two uncles, an uncle whose fork parent is embedded before it, proposals exactly at the limit, 96-byte extension, epoch head, sibling / child of an included uncle) and single-rule violations (number, epoch index / length / number / malformed, target, unknown parent, timestamp = median and now+15s+1ms; cellbase missing / second / twice / wrong input / bad witness; reward +1 / -1 / other lock / split / absent; DAO bit; transactions root, proposals hash, extra hash; extension missing / empty / 31 bytes / wrong root / 97 bytes; proposals over the limit / duplicate; uncles: three, previous epoch, twice, a main-chain block, same height, fork parent not embedded or embedded after, other target, bad proposals hash, included before, of the closing epoch; commit: proposed in the gap, expired, never, in the same block, double spend, duplicate). Every candidate is submitted through HeaderVerifier + parent check + chain service (the submit_block pipeline): valid => Ok(true), tip = candidate, store = replay of the new chain; invalid => error, tip unchanged, store = replay of the old chain. Every invalid candidate is also delivered as a side block under a main chain that is one block ahead, followed by a child and a grandchild: the tip must never leave the main chain, the child that would make the branch canonical is reported failed, the store equals the replay of the main chain.",
+        rule: "contexts (flat world, 4-block epochs, window 2..4, two uncles max): tip 5 with proposals at every distance 1..5 from the candidate height and sibling / fork blocks at heights 3..6; tip 7 where the candidate opens an epoch; tip 6 that already includes an uncle; tip 5 reached through a detour (p1..p3, a four-block competing branch overtakes, p4 and p5 overtake again, so verified blocks are re-attached before the candidate is judged). Catalogue per context: valid candidates on the boundary of each rule (timestamp median+1 and now+15s, commit at the closest and farthest window edge, two uncles, an uncle whose fork parent is embedded before it, proposals exactly at the limit, 96-byte extension, epoch head, sibling / child of an included uncle) and single-rule violations (number, epoch index / length / number / malformed, target, unknown parent, timestamp = median and now+15s+1ms; cellbase missing / second / twice / wrong input / bad witness; reward +1 / -1 / other lock / split / absent; DAO bit; transactions root, proposals hash, extra hash; extension missing / empty / 31 bytes / wrong root / 97 bytes; proposals over the limit / duplicate; uncles: three, previous epoch, twice, a main-chain block, same height, fork parent not embedded or embedded after, other target, bad proposals hash, included before, of the closing epoch; commit: proposed in the gap, expired, never, in the same block, double spend, duplicate). Every candidate is submitted through HeaderVerifier + parent check + chain service (the submit_block pipeline): valid => Ok(true), tip = candidate, store = replay of the new chain; invalid => error, tip unchanged, store = replay of the old chain. Every invalid candidate is also delivered as a side block under a main chain that is one block ahead, followed by a child and a grandchild: the tip must never leave the main chain, the child that would make the branch canonical is reported failed, the store equals the replay of the main chain.",
         assumptions: &["proof of work is the dummy engine in this world (Eaglesong acceptance is C07's subject)", "block size and cycle limits are exercised in C13's worlds, not here", "contexts are designed, not random histories"],
-        bounds: json!({"contexts": 3}),
+        bounds: json!({"contexts": 4}),
     }
 }
 
@@ -416,7 +448,11 @@ pub fn run(ctx: &Ctx) -> Report {
             None => None,
         };
         if let Err(e) = run_context(ctx, &cons, c, w, &mut report) {
-            report.machinery_errors.push(format!("{}: {e}", c.name));
+            if let Some(msg) = e.strip_prefix("VIOLATION-CONTEXT ") {
+                report.violation(format!("valid-refused/context/{}", c.name), format!("{}: while reaching the context through its history: {msg}", c.name), json!({"context": c.name, "candidate": ""}));
+            } else {
+                report.machinery_errors.push(format!("{}: {e}", c.name));
+            }
         }
     }
     report
